@@ -101,6 +101,7 @@ class RunProbe:
         self.shapes = sc.get('shapes', {})
         self.emit = sc.get('emit', {})
         self.save_armed: Optional[int] = None     # node whose save window is open (S0/S1)
+        self.embed_ctx = sc.get('embed_ctx', True)
         self.on_end = None
 
     def _who(self):
